@@ -74,6 +74,8 @@ func recvRunInner(c *corr.Ctx, h *RecvHistory, name string) {
 	haveLast := false
 	var last uint16
 	negRun := 0
+	var ext uint64
+	extKnown := false
 	type pend struct {
 		id  int
 		seq uint16
@@ -136,6 +138,17 @@ func recvRunInner(c *corr.Ctx, h *RecvHistory, name string) {
 			deliveredIDs = map[int]bool{} // new epoch: "except across a detected sender restart"
 		}
 		for k, s := range seqs {
+			// extended highest sequence number, kept independently as long as every delivery is a
+			// forward step of 1..2^15 (backward jumps of the reliable mode / restarts end the tracking)
+			if !haveLast {
+				ext, extKnown = uint64(s), true
+			} else if extKnown {
+				if d := uint16(s - prev); d >= 1 && d <= 32768 && !(restart && k == 0) {
+					ext += uint64(d)
+				} else {
+					extKnown = false
+				}
+			}
 			if haveLast && h.Unreliable && !(restart && k == 0) {
 				// "ahead" in the receiver's own sense: 1..2^15 positions after prev (Lean: Fwd)
 				if int16(s-prev-1) < 0 {
@@ -232,6 +245,10 @@ func recvRunInner(c *corr.Ctx, h *RecvHistory, name string) {
 				cs.Impl = append(cs.Impl, fmt.Sprintf("report %d %d %d", r.LastSequenceNumber, r.FractionLost, r.TotalLost))
 				if uint64(r.TotalLost) != min(totalLost, 0xFFFFFF) {
 					viol("receiver reports agree with the history", "recv-report", fmt.Sprintf("report total lost %d vs %d", r.TotalLost, totalLost))
+				}
+				if extKnown && r.LastSequenceNumber != uint32(ext) {
+					viol("receiver reports agree with the history (extended highest sequence number)", "recv-report-extseq",
+						fmt.Sprintf("report extended seq %d, history %d", r.LastSequenceNumber, uint32(ext)))
 				}
 				if uint16(r.LastSequenceNumber) != last {
 					viol("receiver reports agree with the history", "recv-report", fmt.Sprintf("report last seq %d vs %d", r.LastSequenceNumber, last))
